@@ -274,7 +274,7 @@ def run(tier, seed, replay=None):
             d, _, _ = c10.result_points(c, r)
             exprs.append(coq_cert_expr(c, n, d, tol_of(c["fn"], pl.scale_L(c["A"], c["B"]))))
         try:
-            outs = cm.coq_eval_lines(PID, c10.COQ_HEADER, exprs, tag="cert", per_file=max(20, len(exprs) // (3 * cm.NCPU) + 1))
+            outs = c10corr.eval_lines(PID, c10.COQ_HEADER, exprs, "cert", max(20, len(exprs) // (3 * cm.NCPU) + 1))
             for (c, r, n), o in zip(certs, outs):
                 n_coq += 1
                 if o.strip() != "true":
